@@ -119,3 +119,21 @@ func (p *VerifParser) Resize(w, h int) {
 	p.t.cells.Resize(w, h)
 	p.t.w, p.t.h = w, h
 }
+
+// Strings returns the parameterized / control strings the screen prepared for itself
+// (hard-coded xterm sequences or the entry's overrides), by name.
+func (p *VerifParser) Strings() map[string]string {
+	t := p.t
+	m := map[string]string{
+		"enablePaste": t.enablePaste, "disablePaste": t.disablePaste, "enterUrl": t.enterUrl, "exitUrl": t.exitUrl,
+		"setWinSize": t.setWinSize, "enableFocus": t.enableFocus, "disableFocus": t.disableFocus,
+		"doubleUnder": t.doubleUnder, "curlyUnder": t.curlyUnder, "dottedUnder": t.dottedUnder, "dashedUnder": t.dashedUnder,
+		"underColor": t.underColor, "underRGB": t.underRGB, "underFg": t.underFg,
+		"cursorRGB": t.cursorRGB, "cursorFg": t.cursorFg, "setTitle": t.setTitle, "saveTitle": t.saveTitle,
+		"restoreTitle": t.restoreTitle, "setClipboard": t.setClipboard,
+	}
+	for k, v := range t.cursorStyles {
+		m[fmt.Sprintf("cursorStyle%d", int(k))] = v
+	}
+	return m
+}
